@@ -275,15 +275,18 @@ func compareReport(c *infoCase, rep *refot.Report) error {
 	return nil
 }
 
-// contextualOnly reports whether the lookup list has subtables, but none of
-// a type that exists in only one of GSUB and GPOS.
-func contextualOnly(ll gtab.LookupList) bool {
+// extTypeUndetermined reports whether the lookup list has subtables, but
+// none from which the pinned encoder recognises the table kind (it looks
+// for pointer types that exist in only one of GSUB and GPOS; contextual
+// subtables are shared, and Gpos2_1 is a map type used by value).
+func extTypeUndetermined(ll gtab.LookupList) bool {
 	n := 0
 	for _, l := range ll {
 		for _, s := range l.Subtables {
 			switch s.(type) {
 			case *gtab.SeqContext1, *gtab.SeqContext2, *gtab.SeqContext3,
-				*gtab.ChainedSeqContext1, *gtab.ChainedSeqContext2, *gtab.ChainedSeqContext3:
+				*gtab.ChainedSeqContext1, *gtab.ChainedSeqContext2, *gtab.ChainedSeqContext3,
+				gtab.Gpos2_1:
 				n++
 			default:
 				return false
@@ -293,15 +296,15 @@ func contextualOnly(ll gtab.LookupList) bool {
 	return n > 0
 }
 
-const keyExtTypeContextual = "ext-type:contextual-only"
+const keyExtType = "ext-type:undetermined"
 
 // siteKey chooses the known-findings key for corrupt output.
 func siteKey(c *infoCase, clause string) string {
 	if len(c.overflow) > 0 {
 		return "wrap:" + c.overflow[0]
 	}
-	if len(c.sites) > 0 && contextualOnly(c.info.LookupList) {
-		return keyExtTypeContextual
+	if len(c.sites) > 0 && extTypeUndetermined(c.info.LookupList) {
+		return keyExtType
 	}
 	for _, s := range c.sites {
 		if s == lookups.SiteSubtableOffset || s == lookups.SiteLookupOffset {
@@ -415,9 +418,9 @@ func genInfoCase(t *rapid.T) *infoCase {
 	}
 	r := lookups.GenInfo(env, opt, lookups.InfoOptions{Size: isize, NilLists: true}).Draw(t, "info")
 	c := &infoCase{kind: kind, info: r.Info, overflow: r.Overflow, sites: r.Sites, classes: r.Classes, desc: r.Desc}
-	if len(c.sites) > 0 && len(c.overflow) == 0 && contextualOnly(c.info.LookupList) && stats.IsListed(prop, keyExtTypeContextual) {
+	if len(c.sites) > 0 && len(c.overflow) == 0 && extTypeUndetermined(c.info.LookupList) && stats.IsListed(prop, keyExtType) {
 		// excluded by construction: add a lookup that tells GSUB from GPOS
-		stats.Excluded(keyExtTypeContextual)
+		stats.Excluded(keyExtType)
 		bc := lookups.FindBigClass(map[gtab.Type]string{gtab.TypeGsub: "gsub1_2", gtab.TypeGpos: "gpos1_2"}[kind])
 		c.info.LookupList = append(c.info.LookupList, bigLookup(bc, 3))
 		c.desc = append(c.desc, "appended a small "+bc.Name+" lookup")
